@@ -179,9 +179,12 @@ theorem C07_tree_order (d : Dataset) (s : Text) (hwf : WFds d) (hp : printDs d =
   ⟨normDs d, parse_print d s hp hwf, normDs_skel d⟩
 
 /-- A foreign-style DDS read by pydap and written again.  The dataset `d₁` parsed from any text of the foreign printer
-    (raw names included: they are quoted into `name_regexp`, `RawNameOk.quoted`) prints (every dtype of the parser's table is one the printer knows), and that DDS `s` is a reference text in the
-    sense of the first half of the property: it parses to a dataset `d₂` with the skeleton the foreign text
-    declared (kinds, names, order of members and of a Grid's maps as DECLARED), and `d₂` prints `s` again exactly. -/
+    (raw names included: they are quoted into `name_regexp`, `RawNameOk.quoted`) prints (every dtype of the parser's
+    table is one the printer knows), and that DDS `s` is a reference text in the sense of the first half of the
+    property: it parses to a dataset `d₂` with the skeleton the foreign text declared (kinds, names, order of members
+    and of a Grid's maps as DECLARED), and `d₂` prints `s` again exactly.  Shapes and dimension names of `d₂`: see
+    `C07_foreign_reprint_same` (declarations naming all dimensions or none) and
+    `C07_foreign_reprint_same_refuted` (a declaration naming only some). -/
 theorem C07_foreign_reprint (d : FDataset) (hwf : FWFds d) :
     ∃ d₁ s, parseDds (ftextDs d) = .ok d₁ ∧ printDs d₁ = .ok s ∧
       ∃ d₂, parseDds s = .ok d₂ ∧ skelDs d₂ = skelDs (declDs d) ∧ printDs d₂ = .ok s := by
@@ -189,6 +192,34 @@ theorem C07_foreign_reprint (d : FDataset) (hwf : FWFds d) :
   obtain ⟨s, hs⟩ := printDs_ok (declDs d) hpr
   exact ⟨declDs d, s, foreign_parse d hwf, hs, normDs (declDs d), parse_print _ s hs hw, normDs_skel _,
     by rw [printDs_norm, hs]⟩
+
+/-- The same with the whole structure, not only the skeleton: when every declaration of the foreign text names all of
+    its dimensions or none (`FUniformDs`; the property's "with or without named dimensions"), the dataset parsed from
+    pydap's re-rendering is the same tree of variables as the one the foreign text declared — kinds, names, order,
+    DAP2 types, shapes, dimension names (`SameDs`). -/
+theorem C07_foreign_reprint_same (d : FDataset) (hwf : FWFds d) (hu : FUniformDs d) :
+    ∃ d₁ s d₂, parseDds (ftextDs d) = .ok d₁ ∧ printDs d₁ = .ok s ∧ parseDds s = .ok d₂ ∧ SameDs (declDs d) d₂ ∧
+      printDs d₂ = .ok s := by
+  obtain ⟨hw, hpr⟩ := declDs_wf d hwf
+  obtain ⟨s, hs⟩ := printDs_ok (declDs d) hpr
+  exact ⟨declDs d, s, normDs (declDs d), foreign_parse d hwf, hs, parse_print _ s hs hw,
+    sameDs_norm _ (declDs_dimsFit d hu), by rw [printDs_norm, hs]⟩
+
+/-- `FUniformDs` cannot be dropped.  `Dataset { Int32 a[x = 2][3]; } d;` (legal DAP2: one dimension named, one not)
+    parses as declared — shape (2, 3), dimension names ('x',) — but `BaseType.dims` no longer says which axis is named
+    and `dds()` pairs names with extents by `zip`: it is printed as `Int32 a[x = 2];`, and that text declares shape (2,).
+    An extent is lost on re-rendering.  Outside the property's quantifier as read so far ("with or without named
+    dimensions"); observed and counted by the harness (`feature:foreign-partially-named-dimensions`), not judged. -/
+theorem C07_foreign_reprint_same_refuted :
+    ¬ (∀ (d : FDataset), FWFds d →
+        ∃ d₁ s d₂, parseDds (ftextDs d) = .ok d₁ ∧ printDs d₁ = .ok s ∧ parseDds s = .ok d₂ ∧ SameDs (declDs d) d₂) := by
+  intro h
+  obtain ⟨d₁, s, d₂, h1, h2, h3, h4⟩ := h partNamedWitness partNamedWitness_wf
+  rw [foreign_parse _ partNamedWitness_wf] at h1
+  cases h1
+  rw [parse_print _ s h2 (declDs_wf _ partNamedWitness_wf).1] at h3
+  cases h3
+  exact partNamedWitness_not_same h4
 
 /-! ### non-vacuity (samples and their well-formedness proofs: `Proofs/DdsSamples.lean`) -/
 
@@ -326,6 +357,13 @@ example : parseDds (ftextDs fsampleRaw) = .ok ⟨"my%20ds".toList,
 example : ∃ d₁ s, parseDds (ftextDs fsampleRaw) = .ok d₁ ∧ printDs d₁ = .ok s :=
   let ⟨d₁, s, h1, h2, _⟩ := C07_foreign_reprint fsampleRaw fsampleRaw_wf
   ⟨d₁, s, h1, h2⟩
+
+-- `C07_foreign_reprint_same`: both foreign samples name all dimensions of a declaration or none
+example : FUniformDs fsampleRaw := by
+  simp [FUniformDs, fsampleRaw, FUniformL, FUniformT, FUniformB]
+
+example : FWFds partNamedWitness ∧ ¬ FUniformDs partNamedWitness :=
+  ⟨partNamedWitness_wf, by simp [FUniformDs, partNamedWitness, FUniformL, FUniformT, FUniformB]⟩
 
 /-! ### the tie by translation: the *source text* of every line the DDS printer yields is the model's text
 
